@@ -38,7 +38,7 @@ theorem roundtrip_struct_fuel (env : Env) (hE : envOK env) (name : Bytes) (v : V
   cases htd
   have ha := aliasOf_struct hfind
   unfold marshal at hm
-  simp only [hfind, isStructOrUnpacked_ref ha, Bool.not_true, Bool.false_eq_true, if_false] at hm
+  simp only [hfind, ctdOf, isStructOrUnpacked_ref ha, Bool.not_true, Bool.false_eq_true, if_false] at hm
   rw [enc_struct env name n ifs fs rs vs 1 true false hfind] at hm
   cases hbuf : encFields env fs vs with
   | error e => rw [hbuf] at hm; cases hm
@@ -54,7 +54,7 @@ theorem roundtrip_struct_fuel (env : Env) (hE : envOK env) (name : Bytes) (v : V
     | zero => omega
     | succ k' =>
       unfold unmarshalF
-      simp only [hfind, isStructOrUnpacked_ref ha, Bool.not_true, Bool.and_false, Bool.false_eq_true, if_false,
+      simp only [hfind, ctdOf, isStructOrUnpacked_ref ha, Bool.not_true, Bool.and_false, Bool.false_eq_true, if_false,
         List.drop_zero]
       rw [dec_ref env k' name n ifs fs rs _ 1 true false 0 hfind]
       have := rt_fields env hE vs d' fs buf k' 0 0 [] 0 hwfs (by omega) hs hbuf hlen (by omega)
